@@ -29,6 +29,7 @@ import Mdsort.Model.Dest
 import Mdsort.Model.L0.Mime
 import Mdsort.Model.L0.Util
 import Mdsort.Model.L0.Buffer
+import Mdsort.Model.Start
 
 /-!
 Line-protocol driver: one request per line `<side> <op> <hexarg>*`, one response
@@ -710,6 +711,15 @@ def handle (side op : String) (args : List String) : String :=
   | _, _, none => "BADHEX"
   | "l0", fn, some as => l0Answer fn as
   | "M", "lbuf", some as => (match lbufModel as with | .ok r => r | .error e => faultStr e)
+  | "M", "dconf", some [home] =>
+    -- mdsort.c defaultconf(home): the path handed to config_parse, or exit status 1
+    (match Model.defaultconf Model.PATH_MAX home with | some p => "OK " ++ toHex p | none => "EXIT 1")
+  | "M", "renv", some [home, tmpdir] =>
+    -- mdsort.c readenv with HOME / TMPDIR as given (~ = unset; the password entry is not consulted by the harness requests)
+    let opt (b : Bytes) : Option Bytes := if b == [126] then none else some b
+    (match Model.readenv { home := opt home, pwdir := none, tmpdir := opt tmpdir, tz := none, pathTmp := "/tmp/".toUTF8.toList } with
+     | .ok (h, t, _) => s!"OK {toHex h} {toHex t}"
+     | .error _ => "EXIT 1")
   | "S", "lbuf", some as => lbufSpec as
   | "M", "isbackref", some [s] =>
     match Model.isBackref s with
